@@ -294,7 +294,9 @@ func handshakeCase(r *sim.Rng, cw *sim.CaseWriter) {
 		go func() {
 			defer wg1.Done()
 			_, _, relayedSig, relayedMeta, _ = p2p.VerifAttackerHandshake(m1, eph1.PublicKey().Bytes(), eph1.Bytes(),
-				func(ch []byte) *lib.Signature { return &lib.Signature{PublicKey: km.PublicKey().Bytes(), Signature: km.Sign(ch)} },
+				func(ch []byte) *lib.Signature {
+					return &lib.Signature{PublicKey: km.PublicKey().Bytes(), Signature: km.Sign(ch)}
+				},
 				func() *lib.PeerMeta { return meta().Sign(km) })
 		}()
 		wg1.Wait()
@@ -409,6 +411,10 @@ func main() {
 	w2 := &sim.CaseWriter{OutDir: *outDir, Name: "c17hs", Imports: imp, CaseType: "hs_case", MFun: "hs_mismatches", VFun: "hs_violations", PerShard: 100}
 	for i := 0; i < *nHand; i++ {
 		handshakeCase(r.Fork(), w2)
+	}
+	for i := 0; i < 2+*nHand/10; i++ {
+		sessionReplayCase(r.Fork())
+		reflectionCase(r.Fork(), w2)
 	}
 	w2.Close(st)
 	fmt.Printf("c17: %d cases; faults %v; handshake %v\n", st.Cases, st.Faults, st.Hand)
